@@ -21,7 +21,7 @@ RULE = ("for each sampled (scenario with 2-4 simulators, latency schedule, trans
         "quick runs a seeded sample of the points of each execution, thorough all; one run per "
         "point; distinct+non-trivial = distinct (scenario, schedule, point) whose fault fired")
 LOCAL = ("stock", "gated")
-REMOTE_KINDS = ("raise", "kill_in_handler", "kill_after_reply", "torn_reply", "reset_in_handler")
+REMOTE_KINDS = ("raise", "kill_in_handler", "kill_after_reply", "torn_reply", "reset_in_handler", "reset_after_reply")
 C14_PROFILES = ("zero", "uniform", "per_sim", "heavy", "slow_req", "ties", "slowlink", "slowlink")
 
 
@@ -139,7 +139,7 @@ def check_one(sc, sp, f, last_req=None, f2=None):
             viols.append({"kind": "run_not_prompt", "features": feats,
                           "detail": {"fault": f, "t_fault": vt[qf], "t_return": vt[q_ret], "bound": bound}})
     # (2) error or logged remote error
-    is_last = last_req is not None and f["kind"] in ("kill_after_reply",) and \
+    is_last = last_req is not None and f["kind"] in ("kill_after_reply", "reset_after_reply") and \
         f["req"] >= last_req.get(sid, 1 << 30)
     if oc[0] == "ok" and not is_last:
         # (a simulator that exits after its very last reply cannot be noticed before stop)
